@@ -186,6 +186,22 @@ theorem extend_closed (cfg : Cfg) (hk : cfg.extKeepAll = true) (hin : cfg.extInp
   · exact extend_registers_source_names cfg hk ext s h w.nodup x hx
   · exact extend_registers_new_names cfg hk ext s h x hx
 
+/-- a closed schema whose specified scalars are scalar leaves and whose names are distinct is well-formed -/
+theorem wfB_of_closedB {h : Heap} {s : Schema} (hc : closedB h s = true) (hp : ∀ e, e ∈ s.types → protLeaf h e = true)
+    (hn : (s.types.map (·.1)).Nodup) : wfB h s = true := by
+  simp only [closedB, shapeB, Bool.and_eq_true, List.all_eq_true] at hc
+  exact wfB_of_wfs (chk := refOK s.types) ⟨hc.1.1.1.1.1, hc.1.1.1.1.2, hc.2, hp, hn⟩
+
+/-- FULL: … and well-formed (distinct names, specified scalars untouched), so that it can itself be extended, cloned and
+    transformed (`history_closed_framed`, Props/C14_history.lean); the document must not define a type under the name of a
+    specified scalar -/
+theorem extend_closed_wf (cfg : Cfg) (hk : cfg.extKeepAll = true) (hin : cfg.extInputFieldExtended = true) (ext : Ext) (s : Schema) (h : Heap)
+    (hc : closedB h s = true) (hw : wfB h s = true) (hok : ExtOK s ext) (hnp : ∀ e, e ∈ ext.newTypes → isProtected e.1 = false) :
+    closedB (extend cfg ext s h).1 (extend cfg ext s h).2 = true ∧ wfB (extend cfg ext s h).1 (extend cfg ext s h).2 = true := by
+  have c := extend_closed cfg hk hin ext s h hc hw hok
+  obtain ⟨p, n⟩ := extend_prot_nodup cfg hk ext s h (wfs_of_closedB hc hw) hok.2.1 hok.2.2 hnp (extend_frames_source cfg ext s h).2
+  exact ⟨c, wfB_of_closedB c p n⟩
+
 /-- the variant in the working tree -/
 theorem current_extend_closed (hk : PyGql.Generated.HeapCfg.currentCfg.extKeepAll = true)
     (hin : PyGql.Generated.HeapCfg.currentCfg.extInputFieldExtended = true) : ExtendClosed PyGql.Generated.HeapCfg.currentCfg :=
